@@ -198,7 +198,7 @@ def run(ctx):
                 continue
             n_dec += 1
             missing = RESIDUE_KEY - comps
-            key = 'decision:%s.%s:%s' % (fid[0], fid[1], canon(fn).text(node)[:140])
+            key = 'decision:%s.%s:%s' % (fid[0], fid[1], canon(fn).key(node)[:140])
             if missing:
                 key += ':missing=' + '+'.join(sorted(missing))
             ctx.ob('C06.R1', key, not missing,
